@@ -38,9 +38,15 @@ Spec == Init /\ [][Next]_vars
 Fail(o, clause, feat, qual, w) == PrintT(<<"FAIL", o.id, clause, feat, qual, w.n, w.d>>)
 
 \* the recorded types (or, in self mode, the reference types) of all sub-terms in preorder
-RECURSIVE RefTs(_)
-RefTs(e) == LET RECURSIVE C(_) C(i) == IF i > Len(e.args) THEN <<>> ELSE RefTs(e.args[i]) \o C(i + 1)
-            IN <<TypeRef(Decl, e, <<>>)>> \o C(1)
+RECURSIVE RefTsV(_,_)
+RefTsV(e, vt) ==
+   LET vt2 == IF e.op \in {"exists", "forall"}
+              THEN [n \in {e.vars[i].name : i \in DOMAIN e.vars} |->
+                      e.vars[CHOOSE i \in DOMAIN e.vars : e.vars[i].name = n].type] @@ vt
+              ELSE vt
+       RECURSIVE C(_) C(i) == IF i > Len(e.args) THEN <<>> ELSE RefTsV(e.args[i], vt2) \o C(i + 1)
+   IN <<TypeRef(Decl, e, vt)>> \o C(1)
+RefTs(e) == RefTsV(e, <<>>)
 TsOf(o) == IF Mode = "self" THEN RefTs(o.e) ELSE o.ts
 
 Accepted(o) == o.ok \/ Fail(o, "Accept", Feature(o.e, RefTs(o.e)), o.exc, ZERO)
